@@ -338,7 +338,7 @@ func ScaledFamilies(big bool) []Scaled {
 	}
 	// operand indices >= 241 in every instruction kind that takes a constant or a slot:
 	// bind type, block type and name, field get/set, local get/set, POPN count
-	for _, n := range []int{238, 239, 240, 241, 242, 255, 256, 257, 258, 300, 511, 512, 513, 1000, 2287, 2288} {
+	for _, n := range []int{238, 239, 240, 241, 242, 255, 256, 257, 258, 300, 511, 512, 513, 1000, 2287, 2288, 2289, 2303, 2304, 2305, 2543, 2544, 2545, 2800, 3000, 4400} {
 		var b strings.Builder
 		for i := 0; i < n; i++ {
 			fmt.Fprintf(&b, "print %d\n", i+2)
@@ -346,7 +346,7 @@ func ScaledFamilies(big bool) []Scaled {
 		add(fmt.Sprintf("constpool-bind-%d", n), b.String()+"def blk \"nm\" { fld = 5; print fld }\ndef blk { fld = 6 }\nbind blk:last -> slice\nbind blk:all -> slice\nbind blk:first -> struct\n")
 		// runtime errors and warnings raised by instructions whose operand needs 1, 2 or 3 bytes (their position
 		// is looked up from the operand's last byte)
-		if n <= 300 || n >= 2287 {
+		if n <= 300 || (n >= 2287 && n <= 2305) || n == 3000 {
 			pre := b.String()
 			add(fmt.Sprintf("constpool-rterr-unresolved-%d", n), pre+"print 1\n\ndef blk {\n  fld = 5\n  g =   unknown_name + 1\n}\n")
 			add(fmt.Sprintf("constpool-rterr-bindnone-%d", n), pre+"def blk { fld = 5 }\n\n  bind   nosuch -> struct\nprint 2\n")
